@@ -16,6 +16,7 @@ package main
 //	                             subsamplingX,subsamplingY,samplePosition,delayPresent,delayMinusOne;configOBUs
 
 import (
+	"bytes"
 	"strings"
 
 	"github.com/Eyevinn/mp4ff/av1"
@@ -43,7 +44,20 @@ const (
 	crAVC  = "avc.DecodeAVCDecConfRec#v"
 	crHEVC = "hevc.DecodeHEVCDecConfRec#v"
 	crAV1  = "av1.DecodeAV1CodecConfRec#v"
+	// the rest of the av1 package surface: Size and Encode of a decoded record, and of an arbitrary record value
+	crAV1DecEnc = "av1.DecodeEncode#v"
+	crAV1EncRec = "av1.EncodeRec#v"
 )
+
+func av1EncString(r *av1.CodecConfRec) (string, func() string) {
+	var b bytes.Buffer
+	size := r.Size()
+	if err := r.Encode(&b); err != nil {
+		return "err", nil
+	}
+	out := b.Bytes()
+	return "ok", func() string { return hx.HexU(size) + ";" + hx.Hex(out) }
+}
 
 func init() {
 	register(
@@ -78,6 +92,23 @@ func init() {
 				}
 				return sb.String()
 			}
+		}},
+		target{crAV1DecEnc, true, func(in []byte, arg int) (string, func() string) {
+			r, err := av1.DecodeAV1CodecConfRec(in)
+			if err != nil {
+				return "err", nil
+			}
+			return av1EncString(&r)
+		}},
+		target{crAV1EncRec, true, func(in []byte, arg int) (string, func() string) {
+			if len(in) < 12 {
+				return "err", nil
+			}
+			r := av1.CodecConfRec{Version: in[0], SeqProfile: in[1], SeqLevelIdx0: in[2], SeqTier0: in[3], HighBitdepth: in[4],
+				TwelveBit: in[5], MonoChrome: in[6], ChromaSubsamplingX: in[7], ChromaSubsamplingY: in[8],
+				ChromaSamplePosition: in[9], InitialPresentationDelayPresent: in[10], InitialPresentationDelayMinusOne: in[11],
+				ConfigOBUs: in[12:]}
+			return av1EncString(&r)
 		}},
 		target{crAV1, true, func(in []byte, arg int) (string, func() string) {
 			r, err := av1.DecodeAV1CodecConfRec(in)
@@ -306,10 +337,41 @@ func confRecCorrCases(seed uint64, round, n, total int) []tcase {
 			}
 		}
 	}
+	if round == 0 {
+		// av1 Encode: every value of each header byte of an accepted record (decode -> Size/Encode), and every
+		// record field at the edges of its bit width and beyond (Encode of an arbitrary value)
+		for v := 0; v < 256; v++ {
+			cs = append(cs, tcase{crAV1DecEnc, []byte{0x81, byte(v), byte(r.U64()), 0x10 | byte(r.Intn(16))}, 0})
+			cs = append(cs, tcase{crAV1DecEnc, append([]byte{0x81, byte(r.U64()), byte(v), 0}, r.Bytes(r.Intn(6), nil)...), 0})
+			cs = append(cs, tcase{crAV1DecEnc, []byte{0x81, 0x05, 0x3c, byte(v)}, 0})
+			cs = append(cs, tcase{crAV1DecEnc, []byte{byte(v), 0x05, 0x3c, 0}, 0})
+		}
+		for _, h := range crWitnesses[crAV1] {
+			b := hx.UnHex(h)
+			for k := 0; k <= len(b); k++ {
+				cs = append(cs, tcase{crAV1DecEnc, b[:k], 0})
+			}
+		}
+		for f := 0; f < 12; f++ {
+			for _, v := range []int{0, 1, 2, 3, 4, 7, 8, 15, 16, 17, 31, 32, 63, 64, 127, 128, 129, 254, 255} {
+				b := r.Bytes(12, nil)
+				if r.Bool() {
+					b = []byte{1, 0, 5, 0, 0, 0, 1, 1, 1, 0, 0, 0}
+				}
+				b[f] = byte(v)
+				cs = append(cs, tcase{crAV1EncRec, append(b, r.Bytes(r.Pick(0, 0, 1, 3, 9), nil)...), 0})
+			}
+		}
+	}
 	for i := 0; i < n; i++ {
 		var rec []byte
 		var fs []crField
 		var name string
+		if r.Intn(25) == 0 {
+			b, _ := crGenAV1(r)
+			cs = append(cs, tcase{crAV1DecEnc, crMutate(r, b, nil), 0})
+			cs = append(cs, tcase{crAV1EncRec, r.Bytes(r.Range(10, 20), nil), 0})
+		}
 		switch k := r.Intn(20); {
 		case k < 8:
 			name = crAVC
